@@ -39,7 +39,7 @@ let parse_snap (c : cursor) : snap =
         let kvs =
           repeat nk (fun () ->
               let key = next_hex c in
-              let v = next_hex c in
+              let v = next_val c in
               let ver = next_n c in
               let st = parse_status c in
               (key, { v_val = v; v_ver = ver; v_st = st }))
@@ -81,6 +81,17 @@ let skip_events (c : cursor) : unit =
 (* observation of a state-changing op: `[reply <msg> bytes <n> | ] ev .. | <snap>` *)
 type obsrec = { reply : message option; reply_bytes : int; snap : snap }
 
+(* values inside messages are brought to the same token form as the values of the dumps *)
+let norm_val (v : bytes) : bytes =
+  if List.length v > 256 then bytes_of_string (hexv v) else v
+let norm_delta (x : delta) : delta =
+  { x with nds = List.map (fun nd -> { nd with d_kvs = List.map (fun m -> { m with m_val = norm_val m.m_val }) nd.d_kvs }) x.nds }
+let norm_message (m : message) : message =
+  match m with
+  | SynAck (d, x) -> SynAck (d, norm_delta x)
+  | Ack x -> Ack (norm_delta x)
+  | m -> m
+
 let parse_obs (line : string) : obsrec option =
   if line = "PANIC" then None
   else begin
@@ -88,7 +99,7 @@ let parse_obs (line : string) : obsrec option =
     let reply, reply_bytes =
       if peek c = Some "reply" then begin
         ignore (next c);
-        let m = if peek c = Some "none" then (ignore (next c); None) else Some (parse_message c) in
+        let m = if peek c = Some "none" then (ignore (next c); None) else Some (norm_message (parse_message c)) in
         expect c "bytes";
         let b = next_int c in
         expect c "|";
@@ -229,6 +240,7 @@ let on_local (idx : int) (obs : string) ~(is_write : bool) : unit =
   | _ -> ()
 
 let on_proc (idx : int) (msg : message) (obs : string) : unit =
+  let msg = norm_message msg in
   match Hashtbl.find_opt infos idx, parse_obs obs with
   | Some info, Some o ->
       let before = Hashtbl.find_opt snaps idx in
@@ -396,7 +408,7 @@ let on_syn (idx : int) (obs : string) : unit =
 let on_delta (idx : int) (mtu : int) (sched : id list) (obs : string) : unit =
   if obs <> "PANIC" then begin
     let c = cursor_of_line obs in
-    let m = parse_message c in
+    let m = norm_message (parse_message c) in
     expect c "bytes";
     let b = next_int c in
     check "C07" (b - 4 <= mtu) (Printf.sprintf "serialized delta of %d bytes exceeds its budget %d" (b - 4) mtu);
@@ -417,3 +429,102 @@ let take_fails () : string list =
   let f = List.rev !fails in
   fails := [];
   f
+
+
+(* ---------- C01: fair rounds of complete handshakes ---------- *)
+let in_idl (i : id) (l : id list) : bool = List.exists (fun j -> id_eqb i j) l
+let lex_lt_nn (g1, m1) (g2, m2) = nless g1 g2 || (neq g1 g2 && nless m1 m2)
+
+(* frontiers of all copies of all nodes, keyed by (node index, member token) *)
+let frontier_table () : (int * string, n * n) Hashtbl.t =
+  let t = Hashtbl.create 64 in
+  Hashtbl.iter (fun idx (s : snap) -> List.iter (fun (i, c) -> Hashtbl.replace t (idx, token_of_id i) (c.c_gc, c.c_max)) s.nodes) snaps;
+  t
+
+let progressed (before : (int * string, n * n) Hashtbl.t) (after : (int * string, n * n) Hashtbl.t) ~(only : int list option) : bool =
+  let ok = ref false in
+  Hashtbl.iter
+    (fun (idx, tok) f ->
+      let relevant = match only with Some l -> List.mem idx l | None -> true in
+      if relevant then
+        match Hashtbl.find_opt before (idx, tok) with
+        | Some f0 -> if lex_lt_nn f0 f then ok := true
+        | None -> ok := true)
+    after;
+  !ok
+
+(* every node holds, for every member some node advertises (holds and does not quarantine), a
+   copy at the highest max version any advertising node holds; quarantining nodes are exempt *)
+let converged () : bool =
+  let best : (string, n) Hashtbl.t = Hashtbl.create 16 in
+  Hashtbl.iter
+    (fun _ (s : snap) ->
+      List.iter
+        (fun (i, c) ->
+          if not (in_idl i s.sched) then begin
+            let tok = token_of_id i in
+            match Hashtbl.find_opt best tok with
+            | Some m when not (nless m c.c_max) -> ()
+            | _ -> Hashtbl.replace best tok c.c_max
+          end)
+        s.nodes)
+    snaps;
+  let ok = ref true in
+  Hashtbl.iter
+    (fun _ (s : snap) ->
+      Hashtbl.iter
+        (fun tok m ->
+          let quarantined = List.exists (fun i -> token_of_id i = tok) s.sched in
+          let removed = List.exists (fun (i, _) -> token_of_id i = tok) s.gcn in
+          if not quarantined && not removed then
+            match List.find_opt (fun (i, _) -> token_of_id i = tok) s.nodes with
+            | Some (_, c) -> if not (neq c.c_max m) then ok := false
+            | None -> if not (neq m N0) then ok := false)
+        best)
+    snaps;
+  !ok
+
+let any_quarantine () : bool =
+  let q = ref false in
+  Hashtbl.iter (fun _ (s : snap) -> if s.sched <> [] || s.gcn <> [] then q := true) snaps;
+  !q
+
+let round_base : (int * string, n * n) Hashtbl.t ref = ref (Hashtbl.create 1)
+let round_converged_before = ref true
+let hs_base : (int * string, n * n) Hashtbl.t ref = ref (Hashtbl.create 1)
+let hs_deliverable = ref false
+
+let kf2_class () = if any_quarantine () then Some "KF-2" else None
+
+let on_round (r : int) : unit =
+  if r > 0 && not !round_converged_before then
+    check "C01" ?cls:(kf2_class ()) (progressed !round_base (frontier_table ()) ~only:None)
+      (Printf.sprintf "fair round %d of complete handshakes advanced no copy although the world had not converged" r);
+  round_base := frontier_table ();
+  round_converged_before := converged ()
+
+let on_rounds_end (rounds : int) : unit =
+  check "C01" ?cls:(kf2_class ()) (converged ())
+    (Printf.sprintf "not converged after %d fair rounds of loss-free complete handshakes" rounds)
+
+(* deliverable from [s] (sender) to [r] (receiver): a member s does not quarantine, ahead of r's
+   copy, that r would accept (r does not quarantine it and has not removed it) *)
+let deliverable (s : snap) (r : snap) : bool =
+  List.exists
+    (fun (i, c) ->
+      (not (in_idl i s.sched)) && (not (in_idl i r.sched))
+      && (not (List.exists (fun (j, _) -> id_eqb i j) r.gcn))
+      && (match nm_get i r.nodes with Some cr -> nless cr.c_max c.c_max | None -> nless N0 c.c_max))
+    s.nodes
+
+let on_hs_begin (a : int) (b : int) : unit =
+  hs_base := frontier_table ();
+  hs_deliverable :=
+    (match Hashtbl.find_opt snaps a, Hashtbl.find_opt snaps b with
+     | Some sa, Some sb -> deliverable sb sa || deliverable sa sb
+     | _ -> false)
+
+let on_hs_end (a : int) (b : int) : unit =
+  if !hs_deliverable then
+    check "C01" ?cls:(kf2_class ()) (progressed !hs_base (frontier_table ()) ~only:(Some [a; b]))
+      (Printf.sprintf "complete handshake %d<->%d with deliverable data advanced no copy at either node" a b)
